@@ -428,6 +428,12 @@ def run_case(case, tier):
                     try:
                         pv = P.eval_at(ex, n, values)
                     except (P.Leftover, P.NotANumber) as e:
+                        if isinstance(e, P.Leftover) and all(str(nm).startswith("_prob") for nm in getattr(e, "names", [])) and getattr(e, "names", []):
+                            # the result is expressed in the probability symbol of an abstracted condition, whose value the oracle of
+                            # this check does not supply: nothing is decided for this goal (C01 values such symbols)
+                            res["extra"]["goal-in-abstraction-symbols"] = res["extra"].get("goal-in-abstraction-symbols", 0) + 1
+                            bad = "skip"
+                            break
                         bad = {"kind": "sensitivity-not-a-number", "detail": f"[{method}] ∂E({key})/∂{param} at n={n}, {param}={t}: {e}"}
                         break
                     res["comparisons"] += 1
@@ -438,6 +444,8 @@ def run_case(case, tier):
                         break
                 if bad:
                     break
+            if bad == "skip":
+                continue
             compared += 1
             vals_by_method[method] = bad is None
             if bad:
